@@ -110,6 +110,7 @@ func (b *typeBuilder) addCase(id, family string, decl string, methods []scen.Met
 
 func (b *typeBuilder) graphs(tier string) {
 	usages := []string{"return", "body", "[]return"}
+	combo := 0
 	for aa := eNone; aa <= eEmbed; aa++ {
 		for ab := eNone; ab <= eEmbed; ab++ {
 			for ba := eNone; ba <= eEmbed; ba++ {
@@ -125,41 +126,51 @@ func (b *typeBuilder) graphs(tier string) {
 						if tier != "thorough" && ui > 0 && (aa != eNone || bb != eNone || mutual) {
 							continue // quick: self-loops only with the plain return usage
 						}
-						id := b.nextID()
-						A, B := "A"+id, "B"+id
-						build := func(self, other string, toSelf, toOther edgeKind) (string, ExpSchema) {
-							es := ExpSchema{Kind: "struct", Props: map[string][]string{"X": {"integer"}}}
-							var sb strings.Builder
-							sb.WriteString("type " + self + " struct {\n\tX int\n")
-							for _, e := range []struct {
-								k      edgeKind
-								fname  string
-								target string
-							}{{toSelf, "Fs", self}, {toOther, "Fo", other}} {
-								d, prop, kinds, embed := edgeField(e.k, e.fname, e.target)
-								if d == "" {
-									continue
-								}
-								sb.WriteString("\t" + d + "\n")
-								if embed {
-									es.AllOf = append(es.AllOf, e.target)
-								} else {
-									es.Props[prop] = kinds
-								}
+						// the second struct's type name is exported or not (quick: alternating; thorough: both)
+						combo++
+						for _, lower := range []bool{false, true} {
+							if tier != "thorough" && lower != (combo%2 == 1) {
+								continue
 							}
-							sb.WriteString("}\n")
-							return sb.String(), es
+							id := b.nextID()
+							A, B := "A"+id, "B"+id
+							if lower {
+								B = "b" + id
+							}
+							build := func(self, other string, toSelf, toOther edgeKind) (string, ExpSchema) {
+								es := ExpSchema{Kind: "struct", Props: map[string][]string{"X": {"integer"}}}
+								var sb strings.Builder
+								sb.WriteString("type " + self + " struct {\n\tX int\n")
+								for _, e := range []struct {
+									k      edgeKind
+									fname  string
+									target string
+								}{{toSelf, "Fs", self}, {toOther, "Fo", other}} {
+									d, prop, kinds, embed := edgeField(e.k, e.fname, e.target)
+									if d == "" {
+										continue
+									}
+									sb.WriteString("\t" + d + "\n")
+									if embed {
+										es.AllOf = append(es.AllOf, e.target)
+									} else {
+										es.Props[prop] = kinds
+									}
+								}
+								sb.WriteString("}\n")
+								return sb.String(), es
+							}
+							declA, expA := build(A, B, aa, ab)
+							declB, expB := build(B, A, bb, ba)
+							exp := TypeExpect{Schemas: map[string]ExpSchema{A: expA}}
+							if ab != eNone {
+								exp.Schemas[B] = expB
+							} else {
+								exp.Absent = []string{B}
+							}
+							b.addCase(id, "type-graph", declA+"\n"+declB, []scen.Method{usageMethod(id, usage, A)}, exp,
+								map[string]string{"A->A": edgeNames[aa], "A->B": edgeNames[ab], "B->A": edgeNames[ba], "B->B": edgeNames[bb], "usage": usage, "mutual": fmt.Sprint(mutual), "B-exported": fmt.Sprint(!lower)}, nil)
 						}
-						declA, expA := build(A, B, aa, ab)
-						declB, expB := build(B, A, bb, ba)
-						exp := TypeExpect{Schemas: map[string]ExpSchema{A: expA}}
-						if ab != eNone {
-							exp.Schemas[B] = expB
-						} else {
-							exp.Absent = []string{B}
-						}
-						b.addCase(id, "type-graph", declA+"\n"+declB, []scen.Method{usageMethod(id, usage, A)}, exp,
-							map[string]string{"A->A": edgeNames[aa], "A->B": edgeNames[ab], "B->A": edgeNames[ba], "B->B": edgeNames[bb], "usage": usage, "mutual": fmt.Sprint(mutual)}, nil)
 					}
 				}
 			}
